@@ -42,12 +42,12 @@ TREES = {
     23: {"a": [9, 6], "b": [6, 4], "c": [5, 4, 2], "d": [3]},
     29: {"a": [9, 6], "b": [9, 7], "c": [6, 4], "d": [2]},
 }
-REPS = ["full", "quant", "comp", "eigh", "fd", "full_reject", "quant_reject"]
+REPS = ["full", "quant", "comp", "eigh", "fd", "full_reject", "quant_reject", "full_reject_nm", "quant_nm"]
 
 
 def shards(tier, seed):
   ns = [1, 2, 3, 5, 7, 12] if tier == "quick" else sorted(TREES)
-  reps = ["full", "quant", "comp", "fd", "quant_reject"] if tier == "quick" else REPS
+  reps = ["full", "quant", "comp", "fd", "quant_reject", "full_reject_nm"] if tier == "quick" else REPS
   items = [{"N": n, "rep": r, "mode": "pmap"} for n in ns for r in reps]
   items += [{"N": n, "rep": "full", "mode": "sharded"} for n in ns]
   out = []
@@ -74,6 +74,9 @@ def cfg_for(rep):
            # well-conditioned roots: differently shaped batches compile to different reduction orders, and float32
            # rounding differences are amplified by the conditioning of (S + dI); 1e-3 keeps them ~1e-7
            matrix_epsilon=1e-3)
+  if rep.endswith("_nm"):
+    # without training metrics the per-statistic errors still drive the acceptance gate on every replica
+    c["generate_training_metrics"] = False
   if rep == "comp":
     c["compression_rank"] = 1
     c["block_size"] = 4
@@ -148,7 +151,7 @@ def run_pmap(item, seed, rec):
   rng = np.random.default_rng([seed, item["N"]])
   params = {k: rng.standard_normal(tuple(s)).astype(np.float32) for k, s in tree.items()}
   hist = [{k: rng.standard_normal(tuple(s)).astype(np.float32) for k, s in tree.items()} for _ in range(T)]
-  if item["rep"].endswith("_reject"):
+  if "_reject" in item["rep"]:
     # the first leaf's statistics overflow (deterministically rejected roots: it must keep its old preconditioners),
     # all other leaves are accepted: a gate applied to the wrong statistic shows as a difference between device counts
     k0 = sorted(tree)[0]
